@@ -503,6 +503,8 @@ class disjoint_set_impl {
   void clear() {
     m_comm.barrier();
     m_local_item_parent_map.clear();
+    // No rank may return (and union again) before every rank has cleared
+    m_comm.cf_barrier();
   }
 
   size_type size() {
